@@ -169,6 +169,24 @@ class Builder:
         self.out(target, [f"{x} = {h}({self.val(t)}, {self.val('int')})", f"mon.write({x})", f"mon.write({h}({self.val(t)}, {self.val('int')}))"])
         return "annotated_param"
 
+    def s_annotation_mismatch(self, target):
+        """the annotation names a narrower type than the argument every call passes (Python ignores annotations: the value arrives unchanged)"""
+        h, a, b = self.name("h"), self.name("a"), self.name("b")
+        ann, t = self.draw(st.sampled_from([("int", "float"), ("int", "float"), ("bool", "int"), ("bool", "float"), ("int", "bool"), ("float", "int")]))
+        body = self.draw(st.sampled_from([f"{a} * 2 + {b}", f"{a} + {b}", f"{a} * {b}"]))
+        self.pre += [f"def {h}({a}: {ann}, {b}):", f"    mon.write({a})", f"    return {body}"]
+        x = self.name()
+        v = self.name("n")
+        arg = self.val(t)
+        how = self.draw(st.sampled_from(["lit", "var"]))
+        lines = [f"{v} = {arg}"] if how == "var" else []
+        a1 = v if how == "var" else arg
+        lines += [f"{x} = {h}({a1}, {self.val('int')})", f"mon.write({x})"]
+        if self.draw(st.booleans()):
+            lines += [f"mon.write({h}({a1}, {self.val('int')}))"]   # same signature again
+        self.out(target, lines)
+        return "annotation_mismatch"
+
     def s_list_join(self, target):
         l = self.name("l")
         elems = [self.val(self.draw(st.sampled_from(["int", "float"]))) for _ in range(self.draw(st.integers(1, 4)))]
@@ -440,7 +458,7 @@ class Builder:
 
 
 SAFE = ["if_else_join", "ifexp_join", "float_first", "branch_hoist", "elif_hoist", "for_hoist", "while_hoist", "return_join", "annotated_param",
-        "list_join", "string_promotion", "tuple", "cross_pass", "mixed_arith", "device_getter", "nested_hoist", "same_local_two_helpers", "shadow", "promoted_param", "nested_call_position", "aug_promote"]
+        "list_join", "string_promotion", "tuple", "cross_pass", "mixed_arith", "device_getter", "nested_hoist", "same_local_two_helpers", "shadow", "promoted_param", "nested_call_position", "aug_promote", "annotation_mismatch"]
 OPEN = ["retype", "multi_signature", "unannotated_param", "branch_in_loop", "float_minmaxabs", "main_loop_first_assign"]
 
 
